@@ -33,6 +33,8 @@ def objects(c, n):
         if n == len(prefix) and prefix in _avoiders(alphabet, patterns, n):
             return (prefix,)
         return ()
+    if getattr(c, "strict", False) and n <= len(prefix):
+        return ()
     return tuple(w for w in _avoiders(alphabet, patterns, n) if w.startswith(prefix))
 
 
